@@ -359,6 +359,10 @@ def _mk_register(n_waiters, fixed_new=None):
       b.st.ghost["events"] = ()
       cs = dict(("contracts.c08_core:cb%d" % i, Callback(i, env)) for i in range(n_waiters))
       cs[EV + "raiseEventNoErrors"] = CallSpec("contract", envelope="ComponentRegistered delivery: property C05")
+      # the other delivery entry point PROPAGATES a listener's exception (C05): announcing the component through it would let a
+      # failing ComponentRegistered listener abort register() before the waiters are looked at (seeded change C08_8)
+      cs[EV + "raiseEvent"] = CallSpec("contract", may_raise=(RuntimeError,),
+                                       envelope="raiseEvent: delivery that propagates a listener's exception (property C05)")
     else:
       core = new_core(b, components=dict((nm, object()) for nm in regs), starting_up=False)
       core._waiters = [(CBS[i], "waiter%d" % i, list(depss[i]), (), {}) for i in range(n_waiters)]
@@ -594,3 +598,41 @@ def quit_asked_again_while_going_down(b):
     "going_down_then_down_exactly_once": lambda res: events(b) == ["GoingDownEvent", "DownEvent"],
   })
 quit_asked_again_while_going_down.bound = "one re-entrant quit"
+
+
+# ---------------------------------------------------------------- core.<name>: a registered component is reachable, whatever it is
+# (added 2026-09-25 after seeded change C08_9 tested the component's truth value: a component that is an empty container - a host
+# table with no hosts yet - was 'not registered' for attribute access while hasComponent() said it was, so the wiring callback of
+# listen_to_dependencies raised inside _try_waiter and the sink was never wired)
+
+class EmptyTable(object):
+  """a component that is false as long as it holds nothing"""
+  def __len__(self):
+    return len(self.rows)
+
+
+class Quiet(object):
+  def __bool__(self):
+    return self.on
+
+
+@unit(P, target=CORE + "__getattr__ / hasComponent")
+def a_registered_component_is_reachable_whatever_its_truth_value(b):
+  table = b.raw_new(EmptyTable, rows=b.list([]))
+  quiet = b.raw_new(Quiet, on=b.bool("quiet_component_is_true"))
+  plain = b.raw_new(object)
+  core = new_core(b, components=b.dict({"hosts": table, "quiet": quiet, "plain": plain}), starting_up=False)
+  def run(core):
+    missing = None
+    try:
+      core.absent
+    except AttributeError:
+      missing = "AttributeError"
+    return (core.hosts, core.quiet, core.plain, missing, core.hasComponent("hosts"), core.hasComponent("absent"), core._openflow_wanted)
+  return Case(run, [core], raises={}, ensures={
+    "attribute_access_returns_the_registered_object": lambda res: res[0] is table and res[1] is quiet and res[2] is plain,
+    "an_unregistered_name_is_an_attribute_error": lambda res: res[3] == "AttributeError" and res[5] is False,
+    "has_component_agrees_with_attribute_access": lambda res: res[4] is True,
+    "asking_for_other_components_does_not_ask_for_openflow": lambda res: res[6] is False,
+  })
+a_registered_component_is_reachable_whatever_its_truth_value.bound = "three components"
